@@ -81,7 +81,8 @@ def _run_one(pid, tier, seed, scratch, mir_dir, cfg, jobs, item):
         ob.update(functions=r["functions"], queries=r["queries"], paths=r["paths"], solver_s=r["solver_s"],
                   covers=[r["witnesses_hit"], r["witnesses"]], nonvacuous=r["witnesses_hit"] > 0,
                   native_validations=r.get("native_validations", 0),
-                  sample=dict(harness=f"{mod}::{name}", paths=r["paths"], outcomes=r["outcomes"], examples=r["samples"][:3]))
+                  sample=dict(harness=f"{mod}::{name}", paths=r["paths"], outcomes=r["outcomes"], examples=r["samples"][:3],
+                              native_selfcheck=r.get("selfcheck", [])))
         has_repro = any(c.get("reproduced") for c in r["counterexamples"])
         if r["unmodelled"] and not has_repro:
             ob["verdict"] = "inconclusive"
@@ -96,6 +97,10 @@ def _run_one(pid, tier, seed, scratch, mir_dir, cfg, jobs, item):
                         why=ce.get("replay_note", ""), native_runs=ce.get("native_runs", 0),
                         payload=dict(property=pid, engine="M", harness=f"{mod}::{name}", what=ce["what"],
                                      model=ce.get("model"), replay=ce.get("replay"), all_whats=r.get("all_whats", [])))
+        elif any(sc.get("disagrees") for sc in r.get("selfcheck", [])):
+            bad = next(sc for sc in r["selfcheck"] if sc.get("disagrees"))
+            ob["verdict"] = "inconclusive"
+            ob["why"] = "native self-check: the real code disagrees with the reference on a path the engine accepted (engine/oracle problem): " + bad["note"]
         elif r["witnesses_hit"] < r["witnesses"]:
             ob["verdict"] = "vacuous"; ob["why"] = "reachability witness not hit: " + ", ".join(r["witnesses_missing"])
         else:
